@@ -102,6 +102,10 @@ def run(ctx):
         for _k in range(r.randint(2, 4)):
             f = dbgen.valid_file(r, max_sections=3, fancy=False)
             steps += ["L:" + hx(f.text(term="\n")), "D"]
+            if r.random() < 0.4:
+                # the application adds a record of its own, then loads the SAME unchanged file again (same path, same bytes, same
+                # mtime): the database is again exactly the file's sig lines
+                steps += ["A", "L:" + hx(f.text(term="\n")), "D"]
         ops.append("histq\t" + "\t".join(steps))
     ctx.correspond(ops, nontrivial=lambda l, a: a.count("ok during") >= 2, label="reloads", canon=canon, tagger=lambda l, a: "reload")
     # 2. structured signatures: every field of the grammars
